@@ -105,7 +105,11 @@ def pre_state(P, A):
                          timing=timing())
     # ... and items with the IDs the message carries (an item ID only has to be unique inside its story)
     carried_ids = [A[n] for n in sorted(A) if n[0] == 'n' and n[1:].isdigit()]
-    other = mk_story(other_id, list(reversed(ids)) + carried_ids, lead=2, timing=timing(), decoy=dec)
+    other_timing = timing()
+    if P.get('odd_timing'):
+        # the other story carries timing texts that are no plain numbers: item merges never look at them
+        other_timing = B.timing_block(dur='00:01:30', media_time='n/a', started='soon')
+    other = mk_story(other_id, list(reversed(ids)) + carried_ids, lead=2, timing=other_timing, decoy=dec)
     order = [addressed, other] if P.get('w', 0) == 0 else [other, addressed]
     ro = B.running_order(order, lead=2)
     if P.get('prehist'):
